@@ -11,6 +11,7 @@
 use std::io::BufRead;
 
 mod util;
+mod c06;
 mod c07;
 mod c09;
 mod circuits;
@@ -59,6 +60,7 @@ fn main() {
         ("c07", "fuzz") => c07::fuzz(rest, stdin_lines()),
         ("c16", "run") => c16::run(stdin_lines()),
         ("c19", "record") => c19::record(rest),
+        ("c06", "record") => c06::record(rest, stdin_lines()),
         ("c12", "replay") => c12::replay(rest[0].parse().unwrap(), stdin_lines()),
         (p, m) => {
             eprintln!("unknown property/mode {p} {m}");
